@@ -522,6 +522,19 @@ def run_multi(mon: Monitor, base: EBase, ctx):
     # valid token in any-mode, too
     for ep_name, ep in entry_points(base, True):
         mon.judge(base, "valid[any]", "", base.token, jkey, jsender, rk, rs, allow, ep_name, ep, policy="any", expect_reject=False)
+    # one recipient's key handed over alone (not a key set): under the default validation of all recipients that is not enough - the other
+    # recipients do not yield the key with it - also when they fail for a reason such as a key of another size; with a recipient corrupted likewise
+    j = J.load()
+    toks = [("single-key-for-all-recipients", base.token)]
+    for fam, detail, tok, any_mode, _x in multi_recipient_faults(base, ctx.rng):
+        if fam == "one-recipient-corrupted":
+            toks.append((f"single-key-for-all-recipients+{fam}", tok))
+    for ri, rec in enumerate(base.recs):
+        one = j.key(rec["key"])
+        rone = RefKey.from_jwk(rec["key"])
+        for fam, tok in toks[:3]:
+            for ep_name, ep in entry_points(base, False):
+                mon.judge(base, fam, f"key of r{ri}", tok, one, jsender, rone, rs, allow, ep_name, ep, policy="all")
 
 
 PLAINS = [b"", b"x", b"0123456789abcdef", b"0123456789abcdefX", b'{"iss":"joe","sub":"42"}', bytes(range(160, 192))]
